@@ -30,6 +30,8 @@ func runC05(p *Prog, r *Report) {
 	c05R3(p, r)
 	c03R1(p, r, "C05.R4")
 	c05R5(p, r)
+	ignoreUnexportedRule(p, r, "C05.R6")
+	armStoresRule(p, r, "C05.R7", "config.parseMethodLine", "map", "ignore", "autoMap")
 }
 
 var methodLocalSettings = map[string]bool{"Fields": true, "AutoMap": true, "EnumMapping": true}
